@@ -2,6 +2,7 @@ package an
 
 import (
 	"go/token"
+	"go/types"
 
 	"golang.org/x/tools/go/ssa"
 )
@@ -187,9 +188,34 @@ func Resolve(v ssa.Value) ssa.Value {
 // field and read field by field or copied as a whole – and field idx has at least one store: the stored values.
 // (Parameter objects and result structs introduced by a refactoring are of this kind once their helpers are inlined.)
 func localFieldStores(al *ssa.Alloc, idx int) ([]ssa.Value, bool) {
+	return localFieldStoresD(al, idx, 0)
+}
+
+func localFieldStoresD(al *ssa.Alloc, idx int, depth int) ([]ssa.Value, bool) {
+	if depth > 3 {
+		return nil, false
+	}
 	var vals []ssa.Value
 	for _, r := range Referrers(al) {
 		switch x := r.(type) {
+		case *ssa.Store:
+			// `*al = *other`: a whole-struct copy of another purely local struct (a by-value parameter bound to a literal)
+			if x.Addr != ssa.Value(al) {
+				return nil, false
+			}
+			ld, ok := x.Val.(*ssa.UnOp)
+			if !ok || ld.Op != token.MUL {
+				return nil, false
+			}
+			src, ok := ld.X.(*ssa.Alloc)
+			if !ok {
+				return nil, false
+			}
+			sv, ok := localFieldStoresD(src, idx, depth+1)
+			if !ok && !allFieldsLocal(src, depth+1) {
+				return nil, false
+			}
+			vals = append(vals, sv...)
 		case *ssa.FieldAddr:
 			for _, r2 := range Referrers(x) {
 				switch y := r2.(type) {
@@ -234,4 +260,22 @@ func localFieldStores(al *ssa.Alloc, idx int) ([]ssa.Value, bool) {
 		}
 	}
 	return vals, len(vals) > 0
+}
+
+// allFieldsLocal: al qualifies as purely local even though the field asked for has no store (zero value).
+func allFieldsLocal(al *ssa.Alloc, depth int) bool {
+	st, ok := al.Type().Underlying().(*types.Pointer)
+	if !ok {
+		return false
+	}
+	str, ok := st.Elem().Underlying().(*types.Struct)
+	if !ok {
+		return false
+	}
+	for i := 0; i < str.NumFields(); i++ {
+		if _, ok := localFieldStoresD(al, i, depth); ok {
+			return true // some field qualifies, hence the shape checks passed for the whole variable
+		}
+	}
+	return false
 }
